@@ -47,6 +47,80 @@ def run_db(ctx, profile, n, steps, dump_every=8, variants="", maintenance=False,
     return dict(cases=len(cases), disagreements=dis, failures=failures, dist=dist, histories=ev, nontrivial=nt, samples=samples)
 
 
+def diff_files(cases_path, model_path, impl_path, limit=10):
+    """streaming version of diff_lines for multi-million line runs; each disagreement carries the history
+    (the case lines from the last `db reset`) it belongs to.  returns (number of case lines, disagreements)"""
+    out, hist = [], []
+
+    def lines(p):
+        if not os.path.exists(p):
+            return
+        with open(p, errors="replace") as f:
+            for l in f:
+                yield l.rstrip("\n")
+    for i, (c, m, x) in enumerate(zip(lines(cases_path), lines(model_path), lines(impl_path))):
+        if c.startswith("db reset"):
+            hist = []
+        hist.append(c)
+        if m != x and len(out) < limit:
+            out.append(dict(what="case %d" % i, case=c[:2000], model=m[:2000], impl=x[:2000], history=hist[-60:]))
+    # zip stops at the shortest file: count the lines of each
+    n = [sum(1 for _ in lines(p)) for p in (cases_path, model_path, impl_path)]
+    if not (n[0] == n[1] == n[2]):
+        out.insert(0, dict(what="line count differs", detail="cases=%d model=%d impl=%d" % tuple(n)))
+    return n[0], out
+
+
+def run_dbsmall(ctx, nodes, edges, paths, traverse, sub="small", rev=None, reuse_full=None, reuse_k=None, max_failures=500):
+    """exhaustive small-multigraph run (hx_core dbsmall, harness/hx_core/src/dbsmall.rs): every graph with <= nodes nodes and
+    every ordered edge list of length <= edges (+ id-reuse variants), all traversals / all node-pair path searches on each;
+    same result structure as run_db."""
+    exe, dlog = vlib.build_driver()
+    if exe is None:
+        raise RuntimeError("driver build failed: " + dlog)
+    vlib.sh(["python3", os.path.join(vlib.HARNESS, "gen_types.py")], check=True)
+    tdir, blog = vlib.cargo_build("hx_core", "release")
+    if tdir is None:
+        raise RuntimeError("harness build failed: " + blog)
+    w = os.path.join(ctx.workdir, sub)
+    os.makedirs(w, exist_ok=True)
+    cmd = [os.path.join(tdir, "hx_core"), "dbsmall", "--nodes", str(nodes), "--edges", str(edges), "--rev", rev or REV,
+           "--paths", "1" if paths else "0", "--traverse", "1" if traverse else "0", "--out", w]
+    if reuse_full is not None:
+        cmd += ["--reuse-full", str(reuse_full)]
+    if reuse_k is not None:
+        cmd += ["--reuse-k", str(reuse_k)]
+    rc, out = vlib.sh(cmd, timeout=3000)
+    if rc != 0:
+        raise RuntimeError("harness failed: " + out[-2000:])
+    rc, err = run_driver(exe, os.path.join(w, "cases.txt"), os.path.join(w, "model.txt"), timeout=3000)
+    ncases, dis = diff_files(*(os.path.join(w, f) for f in ("cases.txt", "model.txt", "impl.txt")))
+    if rc != 0:
+        dis.insert(0, dict(what="model driver failed", detail=err))
+    failures, nfail = [], 0
+    p = os.path.join(w, "oracle.txt")
+    if os.path.exists(p):
+        with open(p, errors="replace") as f:
+            for l in f:
+                nfail += 1
+                if len(failures) < max_failures:
+                    l = l.rstrip("\n")
+                    failures.append(dict(cls=l.split(" ")[0], what=l[:6000]))
+    dist, ev, nt, samples = merge_stats([os.path.join(w, "stats.json")])
+    dist["oracle-lines"] = nfail
+    return dict(cases=ncases, disagreements=dis, failures=failures, dist=dist, histories=ev, nontrivial=nt, samples=samples)
+
+
+def merge_runs(r, s, prefix="small:"):
+    """result of run_db `r` + result of run_dbsmall `s` (its distribution counters get the prefix)"""
+    dist = dict(r["dist"])
+    for k, v in s["dist"].items():
+        dist[prefix + k] = dist.get(prefix + k, 0) + v
+    return dict(cases=r["cases"] + s["cases"], disagreements=r["disagreements"] + s["disagreements"],
+                failures=r["failures"] + s["failures"], dist=dist, histories=r["histories"] + s["histories"],
+                nontrivial=r["nontrivial"] + s["nontrivial"], samples=r["samples"][:2] + s["samples"][:2])
+
+
 if __name__ == "__main__":
     class C: pass
     c = C(); c.seed = int(sys.argv[2]) if len(sys.argv) > 2 else 1
